@@ -28,8 +28,8 @@ var (
 	c18Shapes    = [][]int{{3}, {1, 1, 1}, {2, 2}, {4, 4}, {5, 5}, {2, 2, 2, 2, 2}, {4, 4, 3}, {4, 4, 4}, rowsOf(19, 2), rowsOf(20, 2), append(rowsOf(20, 1), 2, 2)}
 	c18ShapeName = []string{"1x3", "3x1", "2x2", "2x4", "2x5", "5x2(10 cells)", "ragged 4+4+3(11 cells)", "3x4", "19x2", "20x2", "ragged 20x1 then 2x2"}
 	c18Header    = []string{"none", "caption", "thead", "tfoot", "colgroup", "col", "th", "th-column", "th-row-empty-corner"}
-	c18Cell      = []string{"none", "abbr-attr", "headers-attr", "scope-attr", "lone-abbr-child"}
-	c18Summary   = []string{"no", "yes"}
+	c18Cell      = []string{"none", "abbr-attr", "headers-attr", "scope-attr", "lone-abbr-child", "scope-attr-without-value", "abbr-attr-empty"}
+	c18Summary   = []string{"no", "yes", "yes-empty"}
 	c18Object    = []string{"none", "embed", "object", "applet", "iframe"}
 )
 
@@ -107,8 +107,11 @@ func (v c18Vec) renderTableWith(prefix, id string) string {
 	if d := c18Datatable[v.Datatable]; d != "" {
 		b.WriteString(` datatable="` + d + `"`)
 	}
-	if v.Summary == 1 {
+	switch v.Summary {
+	case 1:
 		b.WriteString(` summary="some summary"`)
+	case 2:
+		b.WriteString(` summary=""`) // the attribute is there; the rule asks for nothing more
 	}
 	b.WriteString(">")
 	shape := c18Shapes[v.Shape]
@@ -169,6 +172,10 @@ func (v c18Vec) renderTableWith(prefix, id string) string {
 					b.WriteString(` headers="h"`)
 				case "scope-attr":
 					b.WriteString(` scope="col"`)
+				case "scope-attr-without-value":
+					b.WriteString(` scope`)
+				case "abbr-attr-empty":
+					b.WriteString(` abbr=""`)
 				}
 				switch c18DescRole[v.DescRole] {
 				case "gridcell":
@@ -525,9 +532,9 @@ func TestC18(t *testing.T) {
 		if idx%nshards != shard {
 			continue
 		}
-		// quick tier: a pseudo-random 1/16 of the vectors (a multiplicative hash of the index, so the
+		// quick tier: a pseudo-random 1/48 of the vectors (a multiplicative hash of the index, so the
 		// slice is not correlated with the mixed-radix digits), rotated by the seed
-		if !thorough && int(mixIndex(idx)%16) != ((seed%16)+16)%16 {
+		if !thorough && int(mixIndex(idx)%48) != ((seed%48)+48)%48 {
 			continue
 		}
 		n++
